@@ -13,6 +13,7 @@ import (
 	"sync"
 	"time"
 
+	"gitlab.com/gomidi/midi/v2"
 	"gitlab.com/gomidi/midi/v2/drivers"
 	"gitlab.com/gomidi/midi/v2/drivers/midicatdrv"
 )
@@ -152,6 +153,54 @@ func run(h []int) (delivered int) {
 	return delivered
 }
 
+// twoPorts: two in ports of the process-backed driver listening at the same
+// time through midi.ListenTo (two reader goroutines decode lines and build
+// messages concurrently), plus two senders on the out port.
+func twoPorts() int {
+	drv, err := midicatdrv.New()
+	if err != nil {
+		panic(err)
+	}
+	ins, _ := drv.Ins()
+	outs, _ := drv.Outs()
+	var mu sync.Mutex
+	n := 0
+	var stops []func()
+	for _, in := range ins {
+		stop, err := midi.ListenTo(in, func(m midi.Message, ts int32) {
+			var ch, k, v uint8
+			m.GetNoteOn(&ch, &k, &v)
+			mu.Lock()
+			n++
+			mu.Unlock()
+		})
+		if err == nil {
+			stops = append(stops, stop)
+		}
+	}
+	send, _ := midi.SendTo(outs[0])
+	var wg sync.WaitGroup
+	for s := 0; s < 2; s++ {
+		wg.Add(1)
+		go func(s int) {
+			defer wg.Done()
+			for k := 0; k < 20; k++ {
+				send(midi.NoteOn(uint8(s), uint8(k), 100))
+				send(midi.ControlChange(uint8(s), uint8(k), 1))
+			}
+		}(s)
+	}
+	wg.Wait()
+	time.Sleep(15 * time.Millisecond)
+	for _, st := range stops {
+		st()
+	}
+	drv.Close()
+	mu.Lock()
+	defer mu.Unlock()
+	return n
+}
+
 func main() {
 	maxLen, _ := strconv.Atoi(os.Getenv("RACE_MAXLEN"))
 	if maxLen == 0 {
@@ -177,6 +226,10 @@ func main() {
 	os.Stdout = devnull
 	start := time.Now()
 	runs, total := 0, 0
+	for i := 0; i < 5; i++ {
+		total += twoPorts()
+		runs++
+	}
 	done := 0
 	for _, h := range hs {
 		if time.Since(start) > time.Duration(budget)*time.Second {
